@@ -64,6 +64,21 @@ MODS = ["J2O.Props.C06", "J2O.Lemmas.C06", "J2O.GenProps.C06"]
 INT64_MAX = int(np.iinfo(np.int64).max)
 
 
+def prove_robust(chk: Check, mods, checker: bool) -> bool:
+    """chk.prove, but an audit that comes back without the stated theorems (seen once under heavy load
+    while other builds were running; the build itself had succeeded) is retried once and is then
+    infrastructure trouble (exit 2), never a verdict about /repo."""
+    def audit_trouble():
+        return any(("not found by the audit" in b) or b == "audit" for b in getattr(chk, "broken", []))
+    ok = chk.prove(mods, checker=checker)
+    if not ok and audit_trouble():
+        chk.log("Lean audit incomplete; retrying once")
+        ok = chk.prove(mods, checker=checker)
+        if not ok and audit_trouble():
+            raise RuntimeError(f"Lean audit did not report the stated theorems (twice): {chk.broken}")
+    return ok
+
+
 # ----------------------------------------------------------------------------- wiring extraction
 
 
@@ -124,7 +139,8 @@ def _ancestors(v: Any) -> set:
     return out
 
 
-def extract_loop_wiring(node: Any, invar_vals: list, outvar_vals: list, roles: list) -> dict:
+def extract_loop_wiring(node: Any, invar_vals: list, outvar_vals: list, roles: list,
+                        pred_slots: tuple = ()) -> dict:
     """Wiring schema of a real Loop node. `invar_vals[j]` is the ir.Value bound to the equation's j-th
     operand (None for literals), `roles[j]` its role by JAX's own operand layout, `outvar_vals` the
     values bound to the equation's results after lowering."""
@@ -172,7 +188,11 @@ def extract_loop_wiring(node: Any, invar_vals: list, outvar_vals: list, roles: l
     if _strip(cond_out) is cond_in:
         cond_kind = "pass"
     else:
-        changed = [k for k in range(n_carried) if outs[k] == "computed"]
+        # `pred_slots`: carried slots that hold the per-lane predicate of a vmapped while. Their output IS
+        # the condition under analysis, so the walk looks through them: what matters is whether the
+        # predicate is computed from the MASKED next state (the carried state outputs) or from something
+        # upstream of the mask (raw body results / old state).
+        changed = [k for k in range(n_carried) if outs[k] == "computed" and k not in pred_slots]
         stop = {}
         for k in changed:
             stop[id(carried_out[k])] = k
@@ -370,7 +390,8 @@ class Instr:
                     roles = ["condConst"] * a + ["bodyConst"] * b + ["state"] * n_state
                     rec["params"] = {"kind": "while", "nCondConst": a, "nBodyConst": b, "nState": n_state,
                                      "batched": bool(pshape)}
-                    rec["real"] = extract_loop_wiring(node, invar_vals, outvar_vals, roles)
+                    rec["real"] = extract_loop_wiring(node, invar_vals, outvar_vals, roles,
+                                                      pred_slots=(0,) if pshape else ())
                 elif kind == "fori":
                     rec["params"] = {"kind": "fori", "lo": int(p.get("lower", 0) or 0),
                                      "trip": int(p.get("trip_count", 0)), "nState": len(eqn.invars)}
@@ -530,6 +551,37 @@ def fixed_programs() -> list[Prog]:
         return jax.vmap(one)(x)
     P.append(Prog("while_batched", while_batched, [f32(4)],
                   [[F(v)] for v in ([9, 9, 9, 9], [0, 9, 9, 9], [0, 1, 4, 7], [0.25, 0.5, 2, 100], [4.9, 5.0, 5.1, 0])],
+                  expect=["while"]))
+
+    # ---- vmapped while with a NON-MONOTONE exit predicate: a lane that has left the loop must stay frozen
+    #      although applying the body to its final state would satisfy the predicate again; lanes leave at
+    #      different trips, one at trip 0
+    def while_batched_nonmono(x):
+        def one(v0):
+            def cond(s):
+                v, n = s
+                return ((v % 4) != 3) & (n < 24)
+            def body(s):
+                v, n = s
+                return v + 1, n + 1
+            return lax.while_loop(cond, body, (v0, jnp.int32(0)))
+        return jax.vmap(one)(x)
+    P.append(Prog("while_batched_nonmonotone", while_batched_nonmono, [i32(4)],
+                  [[I(v)] for v in ([3, 0, 1, 2], [3, 3, 3, 3], [0, 0, 0, 0], [7, 4, 4, 10], [2, 3, 6, 5], [-1, -2, 8, 3])],
+                  expect=["while"]))
+
+    def while_batched_band(x):
+        def one(v0):
+            def cond(s):
+                v, n = s
+                return (jnp.abs(v - 5.0) > 0.6) & (n < 12)
+            def body(s):
+                v, n = s
+                return v + 1.0, n + 1
+            return lax.while_loop(cond, body, (v0, jnp.int32(0)))
+        return jax.vmap(one)(x)
+    P.append(Prog("while_batched_band", while_batched_band, [f32(3)],
+                  [[F(v)] for v in ([5.0, 3.0, 4.0], [0.0, 5.2, 9.0], [4.5, 4.5, 4.5], [1.0, 2.0, 3.0])],
                   expect=["while"]))
 
     # ---- fori: static bounds incl. zero trips and a non-zero lower bound; index used; two carries
@@ -954,13 +1006,23 @@ def run(chk: Check) -> None:
     thorough = chk.tier == "thorough"
 
     # ---- T: accept/reject table from the live plugins -> Gen/C06.lean ---------------------
+    # Gen/C06.lean is a shared file: another run of this check (e.g. against a scratch worktree) must not
+    # swap the table between our generate() and our build of GenProps -> one C06 run at a time here.
+    import fcntl
     t_start = time.time()
-    rows = generate()
+    rows = tabulate_rejects()
     t_table = time.time() - t_start
     fields = ("construct", "reverse", "nXs", "staticLength", "nState", "dynamicBounds", "capturesTracer", "nBranches")
     acc_reqs = [json.dumps({"op": "accepts", **{k: r[k] for k in fields}}) for r in rows]
     t_p = time.time()
-    proved = chk.prove(MODS, checker=thorough)
+    (LEAN / ".lake").mkdir(exist_ok=True)
+    with open(LEAN / ".lake" / "c06.gen.lock", "w") as lock_fh:
+        fcntl.flock(lock_fh, fcntl.LOCK_EX)
+        try:
+            generate(rows)
+            proved = prove_robust(chk, MODS, thorough)
+        finally:
+            fcntl.flock(lock_fh, fcntl.LOCK_UN)
     t_prove = time.time() - t_p
 
     # ---- H: wiring of every real Loop/If node ---------------------------------------------
